@@ -11,11 +11,14 @@ VERIF = os.path.dirname(HARNESS)
 BUILD = os.path.join(VERIF, 'build')
 COQDIR = os.path.join(VERIF, 'coq')
 THEORIES = os.path.join(COQDIR, 'theories')
-CASES = os.path.join(BUILD, 'cases')
-EVIDENCE = os.path.join(VERIF, 'evidence')
-REPLAYS = os.path.join(VERIF, 'replays')
 PY = '/venv/bin/python'
 REPO = os.environ.get('DADI_REPO', '/repo')
+# registered checks use /repo; a scratch copy of the repository (DADI_REPO=/tmp/...) gets its own
+# case/evidence/replay directories under build/ so that it never disturbs the real ones
+_SFX = '' if REPO == '/repo' else '_' + hashlib.md5(REPO.encode()).hexdigest()[:8]
+CASES = os.path.join(BUILD, 'cases' + _SFX)
+EVIDENCE = os.path.join(VERIF, 'evidence') if not _SFX else os.path.join(BUILD, 'evidence' + _SFX)
+REPLAYS = os.path.join(VERIF, 'replays') if not _SFX else os.path.join(BUILD, 'replays' + _SFX)
 COQ_FLAGS = ['-Q', THEORIES, 'Dadi', '-w', '-notation-overridden,-deprecated-hint-without-locality,-deprecated-instance-without-locality']
 
 FORBIDDEN = re.compile(r'\b(Admitted|admit|Axiom|Axioms|Parameter|Parameters|Conjecture|Admit Obligations|Unset Guard Checking|bypass_check|Unset Positivity Checking|Unset Universe Checking|type-in-type)\b')
@@ -187,6 +190,9 @@ class Ctx:
                 bad.append('%s: %s' % (os.path.relpath(p, VERIF), m.group(0)))
         self.obligation('no Admitted/Axiom/Parameter/guard-off in coq/theories', not bad, 'hygiene', '; '.join(bad[:5]))
         os.makedirs(BUILD, exist_ok=True)
+        if os.environ.get('VERIF_SKIP_MAKE') == '1':      # development only: never set by the registered commands
+            self.notes.append('VERIF_SKIP_MAKE=1: static make skipped (development run)')
+            return True
         with open(os.path.join(BUILD, '.coq.lock'), 'w') as lk:
             fcntl.flock(lk, fcntl.LOCK_EX)
             if not os.path.exists(os.path.join(COQDIR, 'Makefile')):
